@@ -206,10 +206,20 @@ def analyse_method(src, cls, mname, helpers, eff=None, seen=None, top=True, writ
     return eff, written
 
 
-def report(rep, label="P", classes=None, conditions=None):
+# query methods of the constraint / objective moments: pure functions of the loaded data (gamma keeps a write-only textual description of its last result)
+MOMENT_QUERIES = ("gamma", "signed_weights", "bound", "project_lambda")
+MOMENTS = [
+    ("fairlearn/reductions/_moments/utility_parity.py", "UtilityParity", ("load_data",), {}, MOMENT_QUERIES, {"_gamma_descr"}),
+    ("fairlearn/reductions/_moments/error_rate.py", "ErrorRate", ("load_data",), {}, MOMENT_QUERIES, {"_gamma_descr"}),
+    ("fairlearn/reductions/_moments/bounded_group_loss.py", "ConditionalLossMoment", ("load_data",), {}, MOMENT_QUERIES, {"_gamma_descr"}),
+]
+
+
+def report(rep, label="P", classes=None, conditions=None, table=None):
     """classes / conditions restrict the report (used by the checks of other properties: e.g. C09 asks for F5/F6 of GridSearch only); keys of violations
     carry the property id of the asking check unless they are one of C19's recorded findings"""
-    for (relpath, cls, fit_methods, helpers) in ESTIMATORS:
+    for entry in (table if table is not None else ESTIMATORS):
+        (relpath, cls, fit_methods, helpers), predict_like, write_only = entry[:4], (entry[4] if len(entry) > 4 else PREDICT_LIKE), (entry[5] if len(entry) > 5 else set())
         if classes is not None and cls not in classes:
             continue
         fnbase = f"{relpath}::{cls}"
@@ -263,15 +273,16 @@ def report(rep, label="P", classes=None, conditions=None):
                 emit(f"{m}.F4_has_return_self", [("<no return>", ms[m].lineno)], "F4", lambda items: f"{cls}.{m} has no return statement (returns None)")
         # what a fit may leave behind: every attribute some fit-like method (or a self-method it calls) assigns, plus what sklearn's validate_data sets
         fit_state = {"n_features_in_", "feature_names_in_"}
-        for m in list(fit_methods) + ["partial_fit", "_AdversarialFairness__setup", "__setup"]:
+        for m in list(fit_methods) + ["partial_fit", "_AdversarialFairness__setup", "__setup", "__init__"] + (["load_data"] if table is not None else []):
             if m in ms:
                 e2, _ = analyse_method(src, cls, m, helpers)
                 fit_state |= {a for a, _, _ in e2.writes}
         class_level = {t.id for st_ in src.classes[cls].body if isinstance(st_, ast.Assign) for t in st_.targets if isinstance(t, ast.Name)}
-        for m in PREDICT_LIKE:
+        for m in predict_like:
             if m not in ms:
                 continue
             eff, _ = analyse_method(src, cls, m, helpers)
+            eff.writes = [w for w in eff.writes if w[0] not in write_only]
             # F6: prediction reads only constructor parameters and state that fit defines - an attribute that only prediction itself writes (a cache) survives a refit
             f6 = sorted({(a, l) for a, l in eff.reads_before_write if a not in params and a not in fit_state and a not in class_level and a not in ms
                          and not a.startswith("__")})
